@@ -155,7 +155,7 @@ func init() {
 			w.inflight = filepath.Join(w.OutDir, fmt.Sprintf("inflight-C09-w%d-c%d.json", w.Out.Worker, w.Out.Chunk))
 		}
 		msgs, trouble := rapidRound(seed, checks*2, func(rt *rapid.T) {
-			rec := &recorder{in: rapidChooser{rt}}
+			rec := newRecorder(rt)
 			c := DrawTcCase(rec)
 			w.writeInflight(&replayFile{Property: "C09", Engine: "typecheck", Draws: rec.Draws, Input: c, Violation: Violation{Prop: "C09", Class: "death"}})
 			v, r := ExecTcCase(w.T, c)
@@ -220,7 +220,7 @@ func init() {
 			}
 		}
 		if c == nil {
-			c = DrawTcCase(&replayChooser{draws: rf.Draws})
+			c = DrawTcCase(&replayChooser{Draws: rf.Draws})
 		}
 		v, _ := ExecTcCase(w.T, c)
 		if v != nil {
